@@ -1,11 +1,5 @@
-import Martian.Go.Header
-open Martian Martian.Go
-
-theorem byte_forall {p : UInt8 → Prop} (h : ∀ n : Fin 256, p (UInt8.ofNat n.val)) : ∀ c : UInt8, p c := by
-  intro c
-  have := h ⟨c.toNat, c.toNat_lt⟩
-  simpa using this
-
-set_option maxRecDepth 100000 in
-theorem up_up : ∀ c : UInt8, toUpperB (toUpperB c) = toUpperB c := by
-  apply byte_forall; decide
+import Martian.Lemmas.HttpSpec
+open Martian Martian.Go Martian.Go.Header Martian.HttpSpec
+example : indexByte (strBytes "1:2") 58 = some 1 := by decide
+example : lastIndexByte (strBytes "1:2") 58 = some 1 := by decide
+example : splitHostPort (strBytes "1:2") = some (strBytes "1") := by decide
